@@ -1,6 +1,6 @@
 import os
 SOLVER = os.environ.get("C06_SOLVER", "cadical")
-KF = {"KF_TIMER_USEC": None, "KF_FLAGS_MASK": None}   # known-finding blocking defines in force (see findings/)
+KF = {"KF_TIMER_USEC": None, "KF_FLAGS_MASK": None, "KF_ONESHOT_PVT": None}   # known-finding blocking defines in force (see findings/)
 
 META = {
     "bounds": "",
@@ -76,15 +76,30 @@ def validate_jobs(tier):
         "desc": "malformed tuple (per threadpool.h) => error return, zero system calls, udata untouched, no callback",
     }]
 
+ARR5 = ["aaaxx", "aaxax", "aaxxa", "axaax", "axaxa", "axxaa", "xaaax", "xaaxa", "xaxaa", "xxaaa"]   # 3 controls + 2 deliveries
+
+def gating_shapes(tier):
+    if tier == "quick":
+        sh = [(k, p) for k in "RT" for p in ("axaxa", "aaxxa", "axxaa", "aaxax")]
+        sh += [(k, p) for k in "WP" for p in ("axaxa", "axxaa")]
+        sh += [("r", "axaxa"), ("t", "axxaa"), ("R", "anaxn")]
+        sh += [("RT", "abxya"), ("RW", "abyxb"), ("TP", "axbya"), ("RR", "abxxb"), ("TT", "abyxa"), ("Rt", "abyxa")]
+    else:
+        sh = [(k, p) for k in "RWTPrwtp" for p in ARR5]
+        sh += [(k, p) for k in "RT" for p in ("anaxn", "axnxa", "naxan")]
+        two = ["abxya", "abyxb", "axbya", "abxxb", "aybxa", "abxyb", "ayaxb", "baxyx", "abyya"]
+        for pair in ("RR", "RW", "WR", "RT", "TR", "RP", "TT", "TP", "PT", "WT", "PP", "Rt", "rT", "rt", "rw", "Tp"):
+            sh += [(pair, p) for p in two]
+    return sh
+
 def gating_jobs(tier):
     out = []
-    shapes = [("R", "axax"), ("T", "axax")]
-    for ids, pat in shapes:
+    for ids, pat in gating_shapes(tier):
         out.append({
             "name": "gating-%s-%s" % (ids, pat), "src": "gating.c", "defs": dict(KF, PATTERN='"%s"' % pat, IDS='"%s"' % ids),
-            "unwind": 10, "unwindset": ["tpt_loop.0:3"], "solver": SOLVER, "timeout": 300,
+            "unwind": 10, "unwindset": ["tpt_loop.0:3"], "solver": SOLVER, "timeout": 300 if tier == "quick" else 900,
             "shape": "identifiers %s (R/W/T/P on the worker, lower case on the pool virtual thread), history %s (a,b = add/"
-                     "enable/disable/delete on id 0/1; x,y = epoll round reporting id 0/1; n = empty round)" % (ids, pat),
+                     "enable/disable/delete on id 0/1; x,y = epoll round reporting id 0/1 or nothing; n = empty round)" % (ids, pat),
             "desc": "callback iff registered and enabled (reference automaton); ONESHOT gone, DISPATCH silent until "
                     "re-enabled, EOF/ERROR flags, kernel-side state matches after every step",
         })
